@@ -35,6 +35,7 @@ Print Assumptions C11_is_min_substring_edit_distance.
 
 Theorem C11_lev_is_least_script_cost : forall a b, script (lev a b) a b /\ forall c, script c a b -> lev a b <= c.
 Proof. intros a b. split; [apply lev_script|intros c; apply lev_min]. Qed.
+Print Assumptions C11_lev_is_least_script_cost.
 
 Theorem C11_bpm64 : forall t p, (1 <= length p <= 63)%nat ->
   bpm64_bits t p = sed t p.
@@ -47,11 +48,13 @@ Proof.
   intros t p H. rewrite C11_bpm64 by exact H. rewrite C11_block by lia.
   rewrite firstn_all2 by lia. reflexivity.
 Qed.
+Print Assumptions C11_bpm64_agrees_with_block.
 
 (* the padding argument on its own: W wildcard rows below the pattern and W extra text columns change nothing *)
 Theorem C11_padding_is_neutral : forall q, (1 <= length q)%nat -> forall Wd t,
   sedg (rowsP q Wd) (length q + Wd) (Z.of_nat (length q)) (t ++ repeat 0 Wd) = sed t q.
 Proof. exact padding_neutral. Qed.
+Print Assumptions C11_padding_is_neutral.
 
 (* the three layers of the argument, each for all inputs *)
 Theorem C11_cell_function : forall (e vp vn hp hn : bool) (a : Z), vp && vn = false -> hp && hn = false ->
@@ -62,6 +65,7 @@ Theorem C11_cell_function : forall (e vp vn hp hn : bool) (a : Z), vp && vn = fa
   fst (fst r) && snd (fst r) = false /\ fst (snd r) && snd (snd r) = false /\
   dv (fst (fst r)) (snd (fst r)) = d - l /\ dv (fst (snd r)) (snd (snd r)) = d - up.
 Proof. exact cell_spec. Qed.
+Print Assumptions C11_cell_function.
 
 Theorem C11_word_formulas_are_the_serial_step : forall Eq VP VN hpin hnin,
   length VP = length Eq -> length VN = length Eq -> valid VP VN ->
@@ -78,8 +82,10 @@ Definition C11_bpm256_full_statement : Prop := forall t p,
 (* the specification at its two ends *)
 Theorem C11_spec_upper_bound : forall t p, sed t p <= Z.of_nat (length p).
 Proof. exact sed_le_pattern_length. Qed.
+Print Assumptions C11_spec_upper_bound.
 Theorem C11_spec_empty_text : forall p, sed [] p = Z.of_nat (length p).
 Proof. exact sed_empty_text. Qed.
+Print Assumptions C11_spec_empty_text.
 
 (* instances of the open statements, by evaluation (tests of the statements, not proofs of them) *)
 Example C11_instances :
